@@ -8,3 +8,9 @@ harness(prop="C01", target="geckolib.driver.udp_socket:GeckoUdpSocket._process_r
         name="engine_hands_over_one_datagram_per_pass")(c20_threaded.receive_step_contains_every_failure)
 harness(prop="C01", target="geckolib.async_spa:GeckoAsyncSpa._get_status_block_handler_func",
         name="block_request_is_built_afresh_for_every_attempt")(c06_engine.every_attempt_gets_a_fresh_request_with_the_configured_budget)
+
+# a segment is taken by the transfer that asked for it, whatever bytes the spa's block holds (a payload spelling another verb
+# must not make another consumer swallow it); shared with C04
+from contracts import c04_wire
+harness(prop="C01", target="geckolib.driver.protocol.watercare:GeckoWatercareErrorHandler.can_handle",
+        name="block_contents_never_redirect_a_segment")(c04_wire.a_datagram_belongs_to_the_handler_of_its_leading_verb_only)
